@@ -864,7 +864,42 @@ Section PT.
     exfalso. exact (program_nofault _ ts Hg x H).
   Qed.
 
+  (** The slope 3 cannot be improved: n >= 1 opening brackets exhaust 3 * n + 2 units of fuel
+      (chain parse_expr -> parse_array_expr -> parse_list -> parse_expr, one token per round). *)
+  Lemma expr_tight k : forall f p,
+    f <= 3 * k -> parse_expr pf f p (repeat (TFix KOpenBracket) k) = OutOfFuel.
+  Proof.
+    induction k as [|k IH]; intros f p Hf.
+    - assert (f = 0) as -> by lia. reflexivity.
+    - cbn [repeat]. destruct f as [|[|[|f]]]; try reflexivity.
+      rewrite parse_expr_S. unfold parse_head. cbn [cur]. cbv iota.
+      rewrite parse_array_expr_S. cbn [advance tl]. rewrite parse_list_S.
+      replace (is_fix KCloseBracket (cur (repeat (TFix KOpenBracket) k))) with false
+        by (destruct k; reflexivity).
+      rewrite IH by lia. reflexivity.
+  Qed.
+
+  Theorem parse_fuel_tight n :
+    n <> 0 -> parse_program pf (3 * n + 2) (repeat (TFix KOpenBracket) n) = OutOfFuel.
+  Proof.
+    intros Hn. destruct n as [|k]; [congruence|].
+    replace (3 * S k + 2) with (S (S (3 * S k))) by lia.
+    rewrite parse_program_S.
+    replace (is_fix KEof (cur (repeat (TFix KOpenBracket) (S k)))) with false by reflexivity.
+    rewrite parse_statement_S. unfold stmt_head. cbn [repeat cur]. cbv iota.
+    rewrite (expr_tight (S k)) by lia. reflexivity.
+  Qed.
+
 End PT.
+
+(** Consequences of invariant A in the form most useful elsewhere *)
+Corollary parse_expr_consumes pf f p ts e ts' :
+  parse_expr pf f p ts = Ok (e, ts') -> (exists pre, ts = pre ++ ts') /\ length ts' < length ts.
+Proof. intros H. apply (A_expr pf f (A_holds pf f)) in H. exact H. Qed.
+
+Corollary parse_statement_consumes pf f ts st ts' :
+  parse_statement pf f ts = Ok (st, ts') -> (exists pre, ts = pre ++ ts') /\ length ts' < length ts.
+Proof. intros H. apply (A_statement pf f (A_holds pf f)) in H. exact H. Qed.
 
 (** * Part 3: the lexer *)
 
@@ -1293,6 +1328,7 @@ End PTExamples.
 
 Print Assumptions parse_terminates.
 Print Assumptions parse_terminates_bound.
+Print Assumptions parse_fuel_tight.
 Print Assumptions parse_no_panic.
 Print Assumptions parse_total.
 Print Assumptions parse_fault_only_float.
